@@ -33,7 +33,7 @@ pub struct Gen<'a> {
 impl<'a> Gen<'a> {
     pub fn emit(&mut self, line: String) -> String {
         self.ops += 1;
-        if !self.faults || line.starts_with("advance") || line.starts_with("mint ") {
+        if !self.faults || line.starts_with("advance") || line.starts_with("mint ") || line.starts_with("tfq ") {
             return self.run.step(&line, self.o);
         }
         // fault enumeration: the same operation is attempted with the 1st, 2nd, … bank call failing,
@@ -605,6 +605,93 @@ impl<'a> Gen<'a> {
         self.emit(format!("tx {} {} pm route 3 uusdt uusdc {} uusdc uusdt {} uusdt uusdc {} - - 500000000000000000", sender, funds_str(&[coin(10_000, "uusdt")]), short, short, short));
         self.emit(format!("tx {} 0 pm config - - - - {} true - -", owner, off));
         self.emit(format!("tx {} {} pm route 2 uom uusdc {} uusdc uusdt {} - - 500000000000000000", sender, funds_str(&[coin(10_000, "uom")]), long, short));
+    }
+
+    /// directed scenario for C12 / C04: the pool manager's fee collector is an ordinary account that ALSO trades: it swaps
+    /// directly (proceeds to itself and to a third account) and through the router on a pool with a protocol fee — the
+    /// simulation an instant before and the execution agree whoever the sender is
+    pub fn op_scenario_collector_swaps(&mut self) {
+        // a pool of its own with a protocol, a swap and a burn fee
+        let tag = self.r.below(1000);
+        let cf = self.creation_funds();
+        self.emit(format!("tx u1 {} pm create cp 0 2 uom 6 uusdc 6 2000000000000000 3000000000000000 1000000000000000 - cs{}", funds_str(&cf), tag));
+        let mut d1 = vec![coin(90_000_000, "uom"), coin(45_000_000, "uusdc")]; d1.sort_by(|a, b| a.denom.cmp(&b.denom));
+        self.emit(format!("tx u2 {} pm provide o.cs{} - - - - -", funds_str(&d1), tag));
+        let pools = self.pools();
+        let Some(p) = pools.iter().find(|p| p.pool_info.pool_identifier == format!("o.cs{}", tag) && !p.total_share.amount.is_zero()) else { return };
+        let pi = p.pool_info.clone();
+        let own = self.run.h.ownership("pm");
+        let owner = own.split('/').next().unwrap_or("owner").to_string();
+        let coll = ["u4", "u3"][self.r.below(2) as usize];
+        self.emit(format!("tx {} 0 pm config {} - - - - - - -", owner, coll));
+        let (x, y) = (pi.assets[0].denom.clone(), pi.assets[1].denom.clone());
+        let amt = pi.assets[0].amount.u128() / 50 + 1_000;
+        let other = if coll == "u4" { "u2" } else { "u1" };
+        for recv in ["-", other, coll] {
+            self.emit(format!("tx {} {} pm swap {} {} - 500000000000000000 {}", coll, funds_str(&[coin(amt, x.clone())]), pi.pool_identifier, y, recv));
+        }
+        self.emit(format!("tx {} {} pm route 1 {} {} {} - {} 500000000000000000", coll, funds_str(&[coin(amt, x.clone())]), x, y, pi.pool_identifier, other));
+        // somebody else trades too, then the collector goes back to the fee-collector contract
+        self.emit(format!("tx {} {} pm swap {} {} - 500000000000000000 -", other, funds_str(&[coin(amt, x.clone())]), pi.pool_identifier, y));
+        if self.r.chance(2, 3) { self.emit(format!("tx {} 0 pm config fc - - - - - - -", owner)); }
+    }
+
+    /// directed scenario for C17: a switch stays off for a LONG time (31 … 400 days), also after having been off and on before:
+    /// the operation is refused as long as the switch is off — there is no clock in the switches
+    pub fn op_scenario_long_pause(&mut self) {
+        let pools = self.pools();
+        let Some(p) = pools.iter().find(|p| !p.total_share.amount.is_zero() && p.pool_info.assets.len() == 2) else { return self.op_provide() };
+        let pi = p.pool_info.clone();
+        let own = self.run.h.ownership("pm");
+        let owner = own.split('/').next().unwrap_or("owner").to_string();
+        let lp = self.run.h.w.cd(&pi.lp_denom);
+        let holders = self.lp_holders(&lp);
+        let Some(hd) = holders.first().copied() else { return self.op_provide() };
+        for which in 0..3u64 {
+        let sw = |on: bool| -> String { let v = if on { "true" } else { "false" }; match which { 0 => format!("{} - -", v), 1 => format!("- {} -", v), _ => format!("- - {}", v) } };
+        let (x, y) = (pi.assets[0].denom.clone(), pi.assets[1].denom.clone());
+        let try_op = |g: &mut Self| {
+            match which {
+                0 => { g.emit(format!("tx {} {} pm swap {} {} - 500000000000000000 -", hd, funds_str(&[coin(pi.assets[0].amount.u128() / 1000 + 1, x.clone())]), pi.pool_identifier, y)); }
+                1 => { let mut f = vec![coin(pi.assets[0].amount.u128() / 100 + 1, x.clone()), coin(pi.assets[1].amount.u128() / 100 + 1, y.clone())]; f.sort_by(|a, b| a.denom.cmp(&b.denom));
+                       g.emit(format!("tx {} {} pm provide {} 500000000000000000 - - - -", hd, funds_str(&f), pi.pool_identifier)); }
+                _ => { let bal = g.run.h.w.balance(hd, &lp); if bal > 10 { g.emit(format!("tx {} 1 {} {} pm withdraw {}", hd, lp, bal / 10, pi.pool_identifier)); } }
+            }
+        };
+        // off, refused; on again; a long time passes; off again: still refused
+        self.emit(format!("tx {} 0 pm config - - - - {} {}", owner, pi.pool_identifier, sw(false)));
+        try_op(self);
+        if self.r.chance(2, 3) { self.emit(format!("tx {} 0 pm config - - - - {} {}", owner, pi.pool_identifier, sw(true))); }
+        let days = 31 + self.r.below(370);
+        self.emit(format!("advance {}", days * DAY * 1_000_000_000));
+        self.emit(format!("tx {} 0 pm config - - - - {} {}", owner, pi.pool_identifier, sw(false)));
+        try_op(self);
+        self.emit(format!("advance {}", 31 * DAY * 1_000_000_000 + 1));
+        try_op(self);
+        self.emit(format!("tx {} 0 pm config - - - - {} {}", owner, pi.pool_identifier, sw(true)));
+        try_op(self);
+        }
+    }
+
+    /// directed scenario for C16 / C01: the token factory stops answering QUERIES (its messages keep working and charging).
+    /// The denom-creation fee cannot be looked up, so pool creation must be REFUSED — with the pool fee alone attached, with
+    /// the full fees attached, with nothing attached — and nothing may come out of the reserves of the existing pools; once the
+    /// queries answer again, creation with the exact fees works
+    pub fn op_scenario_tf_queries_off(&mut self) {
+        let tag = self.r.below(1000);
+        let cf = self.creation_funds();
+        let cfgq: mantra_dex_std::pool_manager::Config = self.run.h.w.app.wrap()
+            .query_wasm_smart(self.run.h.w.a("pm"), &mantra_dex_std::pool_manager::QueryMsg::Config {}).unwrap();
+        let pool_fee_only: Vec<Coin> = if cfgq.pool_creation_fee.amount.is_zero() { vec![] } else { vec![cfgq.pool_creation_fee.clone()] };
+        self.emit("tfq off".to_string());
+        let sender = pick_user(self.r);
+        for (k, f) in [pool_fee_only, cf.clone(), vec![]].iter().enumerate() {
+            self.emit(format!("tx {} {} pm create cp 0 2 uom 6 uusdc 6 0 3000000000000000 0 - tq{}x{}", sender, funds_str(f), tag, k));
+        }
+        // everything else keeps working
+        self.op_swap();
+        self.emit("tfq on".to_string());
+        self.emit(format!("tx {} {} pm create cp 0 2 uom 6 uusdc 6 0 3000000000000000 0 - tq{}", sender, funds_str(&cf), tag));
     }
 
     /// directed scenario for C17: swaps are switched off on pool A; then the owner pauses deposits on ANOTHER pool B and later
@@ -1472,6 +1559,32 @@ impl<'a> Gen<'a> {
         self.emit(format!("tx {} 0 fm claim -", u));
     }
 
+    /// directed scenario for C10: an LP token WITHOUT any farm (nothing to claim, so no claim ever compacts the weight history);
+    /// a user locks, several epochs pass, the user closes the position in full — and must be left without any weight in that LP
+    /// token, at every epoch; the user then locks again: the total must still cover the users' weights
+    pub fn op_scenario_close_out_without_farm(&mut self) {
+        let tag = self.r.below(1000);
+        let cf = self.creation_funds();
+        self.emit(format!("tx u1 {} pm create cp 0 2 uluna 6 uusdt 6 0 0 0 - nf{}", funds_str(&cf), tag));
+        let mut d1 = vec![coin(40_000_000, "uluna"), coin(40_000_000, "uusdt")]; d1.sort_by(|x, y| x.denom.cmp(&y.denom));
+        self.emit(format!("tx u2 {} pm provide o.nf{} - - - - -", funds_str(&d1), tag));
+        self.emit(format!("tx u3 {} pm provide o.nf{} - - - - -", funds_str(&d1), tag));
+        let lp = format!("factory/pm/o.nf{}.LP", tag);
+        let (b2, b3) = (self.run.h.w.balance("u2", &lp), self.run.h.w.balance("u3", &lp));
+        if b2 < 100 || b3 < 100 { return; }
+        self.emit(format!("tx u2 1 {} {} fm createpos na{} {} -", lp, b2 / 4, tag, DAY * 2));
+        self.emit(format!("tx u3 1 {} {} fm createpos nb{} {} -", lp, b3 / 3, tag, DAY * 4));
+        let days = 2 + self.r.below(4);
+        self.emit(format!("advance {}", days * DAY * 1_000_000_000));
+        if self.r.chance(1, 2) { self.emit(format!("tx u2 1 {} {} fm expandpos u-na{}", lp, b2 / 8, tag)); self.emit(format!("advance {}", 2 * DAY * 1_000_000_000)); }
+        self.emit(format!("tx u2 0 fm closepos u-na{} - -", tag));
+        self.emit(format!("advance {}", DAY * 1_000_000_000));
+        self.emit(format!("tx u2 1 {} {} fm createpos nc{} {} -", lp, b2 / 5, tag, DAY));
+        self.emit(format!("advance {}", DAY * 1_000_000_000));
+        self.emit("tx u2 0 fm claim -".to_string());
+        self.emit("tx u3 0 fm claim -".to_string());
+    }
+
     /// directed scenario for C06 / C07: a staker who has ALREADY claimed the current epoch gets a further position through a
     /// locked deposit (the pool manager creates it on the staker's behalf) and claims again in the same epoch and in the next:
     /// the second claim of the same epoch pays nothing, the next pays one epoch — the claim cursor survives the lock
@@ -1916,7 +2029,7 @@ pub fn gen_pm_case(r: &mut Rng, id: u64, len: u64, faults: bool, o: &mut Out) {
         // everybody leaves a constant-product pool and somebody deposits again
         for _ in 0..2 { g.op_create_pool(); }
         for _ in 0..6 { g.op_provide(); }
-        match (id / 3) % 9 { 8 => g.op_scenario_substring_pool_ids(), 7 => g.op_scenario_revisit_min_receive(), 0 => g.op_scenario_disabled_route(), 1 => g.op_scenario_full_exit_redeposit(), 2 => g.op_scenario_twin_pools_cycle(), 3 => g.op_scenario_waived_creation_fee(),
+        match (id / 3) % 12 { 11 => g.op_scenario_tf_queries_off(), 10 => g.op_scenario_long_pause(), 9 => g.op_scenario_collector_swaps(), 8 => g.op_scenario_substring_pool_ids(), 7 => g.op_scenario_revisit_min_receive(), 0 => g.op_scenario_disabled_route(), 1 => g.op_scenario_full_exit_redeposit(), 2 => g.op_scenario_twin_pools_cycle(), 3 => g.op_scenario_waived_creation_fee(),
             4 => g.op_scenario_disabled_withdraw_sibling(), 5 => g.op_scenario_broken_route_link(), _ => g.op_scenario_restated_toggle() }
     }
     while g.ops < len {
@@ -1957,7 +2070,8 @@ pub fn gen_fm_case(r: &mut Rng, id: u64, len: u64, faults: bool, o: &mut Out) {
     for _ in 0..6 { g.op_provide(); }
     // every second case starts with one directed scenario, in rotation, whatever the seed
     if let Some(k) = scen {
-        match k % 22 {
+        match k % 23 {
+            22 => g.op_scenario_close_out_without_farm(),
             21 => g.op_scenario_lock_after_claim(),
             20 => g.op_scenario_claim_until_past_epoch(),
             19 => g.op_scenario_whale_weights(),
@@ -2252,7 +2366,10 @@ pub fn run_twin(seed: u64, cases: u64, o: &mut Out) {
             let half = a / 2;
             let ask_before = run_b.h.w.balance(user, &ad);
             let res_b1 = run_b.step(&format!("tx {} 1 {} {} pm swap {} {} - {} -", user, od, half, pid, ad, ss), o);
-            let proceeds = run_b.h.w.balance(user, &ad).saturating_sub(ask_before);
+            // the swap's proceeds = what the swap RETURNED (when the depositor happens to be the configured fee collector its
+            // balance also gains the protocol fee, which is not part of the proceeds)
+            let proceeds = run_b.h.last_attrs.iter().find(|(k, _)| k == "return_amount").and_then(|(_, v)| v.parse::<u128>().ok())
+                .unwrap_or_else(|| run_b.h.w.balance(user, &ad).saturating_sub(ask_before));
             let mut funds = vec![coin(half, od.clone()), coin(proceeds, ad.clone())];
             funds.sort_by(|x, y| x.denom.cmp(&y.denom));
             let res_b2 = if res_b1 == "ok" {
@@ -2263,8 +2380,13 @@ pub fn run_twin(seed: u64, cases: u64, o: &mut Out) {
             let pb = ob2.pools.iter().find(|x| x.pool_info.pool_identifier == pid).unwrap();
             let g = |ob_: &crate::streams::hist::Obs, who: &str, d: &str| *ob_.bal.get(&(who.to_string(), d.to_string())).unwrap_or(&0);
             let locked = |ob_: &crate::streams::hist::Obs| -> u128 { ob_.positions.iter().filter(|q| q.lp_asset.denom == p.lp_denom).map(|q| q.lp_asset.amount.u128()).sum() };
+            // (`C14Conv.two_step_accepted_implies_single_accepted`: "refused where the two-step route is accepted" is judged only
+            //  when the pool manager is not its own fee collector and the depositor is not the collector — both shown necessary)
+            let coll: String = run_a.h.w.app.wrap().query_wasm_smart::<mantra_dex_std::pool_manager::Config>(run_a.h.w.a("pm"), &mantra_dex_std::pool_manager::QueryMsg::Config {})
+                .map(|c| run_a.h.w.n(c.fee_collector_addr.as_str())).unwrap_or("fc".into());
+            let judge_refusal = coll != "pm" && coll != user;
             o.line(&format!("mon_twin_c14 {} {} {} {} {} {} {} {} {} {} {} {} {} {} {} {} {} {}",
-                (res_a == "ok") as u8, (res_b1 == "ok") as u8, (res_b2 == "ok") as u8, a % 2,
+                (res_a == "ok") as u8, (res_b1 == "ok") as u8, (res_b2 == "ok" && (res_a == "ok" || judge_refusal)) as u8, a % 2,
                 pa.pool_info.assets[0].amount, pb.pool_info.assets[0].amount, pa.pool_info.assets[1].amount, pb.pool_info.assets[1].amount,
                 pa.total_share.amount, pb.total_share.amount,
                 g(oa, user, &lp), g(ob2, user, &lp), locked(oa), locked(ob2),
